@@ -117,6 +117,12 @@ def execute(script):
                         res = obj.intersection(other, der[1])
                     elif kind == 'take':
                         res = obj.take(der[1], der[2], reorder=der[3])
+                    elif kind == 'take_present':
+                        # names taken from the definition itself (reversed / rotated), so the call always succeeds
+                        objs = list(obj.objects)[::-1] if der[1] else None
+                        props = list(obj.properties)
+                        props = (props[1:] + props[:1])[::-1] if der[2] else None
+                        res = obj.take(objs, props, reorder=der[3])
                     elif kind == 'transposed':
                         res = obj.transposed()
                     elif kind == 'inverted':
